@@ -19,10 +19,10 @@ for dp, dns, fns in os.walk(os.path.join(root, 'chython')):
                     names |= {n.id for n in ast.walk(t) if isinstance(n, ast.Name)}
             import sys as _s
             _s.path.insert(0, os.path.dirname(os.path.dirname(os.path.abspath(__file__))))
-            from sa.normalize import scoped_functions, fingerprint, local_fingerprints, referrers
+            from sa.normalize import scoped_functions, fingerprint, local_fingerprints, referrers, view_reads
             fps = {q: fingerprint(fn) for q, fn in scoped_functions(tree)}
             locs = {q: local_fingerprints(fn) for q, fn in scoped_functions(tree)}
-            out['.'.join(parts)] = {'fingerprints': fps, 'locals': locs, 'refs': referrers(tree), 'functions': sorted({n.name for n in ast.walk(tree) if isinstance(n, (ast.FunctionDef, ast.AsyncFunctionDef))}),
+            out['.'.join(parts)] = {'fingerprints': fps, 'locals': locs, 'refs': referrers(tree), 'views': view_reads(tree), 'functions': sorted({n.name for n in ast.walk(tree) if isinstance(n, (ast.FunctionDef, ast.AsyncFunctionDef))}),
                                     'names': sorted(names)}
 json.dump(out, open(os.path.join(os.path.dirname(os.path.dirname(os.path.abspath(__file__))), 'sa', 'known_functions.json'), 'w'), indent=0, sort_keys=True)
 print(len(out), 'modules', sum(len(v['functions']) for v in out.values()), 'functions', sum(len(v['names']) for v in out.values()), 'module-level names')
